@@ -1254,3 +1254,106 @@ Proof.
   left. exists xB, xD. split; [vm_compute; tauto|]. split; [vm_compute; tauto|]. split; [discriminate|].
   right. exists [1%N; 7%N], 100%Z. split; vm_compute; tauto.
 Qed.
+
+(* ------------------------------------------------------------------------------------------ *)
+(* the boolean has_collision (what the correspondence compares with the implementation) decides
+   collides on well-formed sets *)
+
+Lemma mem_key_In m t l : mem_key m t l = true <-> In (m, t) l.
+Proof.
+  induction l as [|[m' t'] l IH]; cbn [mem_key In]; [split; [discriminate|tauto]|].
+  rewrite orb_true_iff, IH, key_eqb_true. split; intros [H|H]; auto.
+Qed.
+
+Lemma dup_key_spec l : dup_key l = true <-> ~ NoDup l.
+Proof.
+  induction l as [|[m t] l IH]; cbn [dup_key].
+  - split; [discriminate|]. intros H. exfalso. apply H. constructor.
+  - rewrite orb_true_iff, mem_key_In, IH. split.
+    + intros [H|H] Hn; inversion Hn; subst; tauto.
+    + intros Hn. destruct (in_dec key_dec (m, t) l) as [Hi|Hi]; [now left|right].
+      intros Hl. apply Hn. now constructor.
+Qed.
+
+Lemma files_collide_spec f g :
+  files_collide f g = true <-> share_name f g \/ share_name g f \/ share_ext f g.
+Proof.
+  unfold files_collide, share_name, share_ext. rewrite !orb_true_iff, !existsb_exists. split.
+  - intros [[[n [Hn H]]|[n [Hn H]]]|[[m t] [Hk H]]].
+    + left. exists n. split; [exact Hn|]. apply orb_true_iff in H as [H|H]; apply mem_name_In in H; auto.
+    + right. left. exists n. split; [exact Hn|]. right. now apply mem_name_In.
+    + right. right. exists m, t. cbn in H. apply mem_key_In in H. auto.
+  - intros [[n [Hn [H|H]]]|[[n [Hn [H|H]]]|[m [t [H1 H2]]]]].
+    + left. left. exists n. split; [exact Hn|]. apply orb_true_iff. left. now apply mem_name_In.
+    + left. left. exists n. split; [exact Hn|]. apply orb_true_iff. right. now apply mem_name_In.
+    + left. left. exists n. split; [exact H|]. apply orb_true_iff. left. now apply mem_name_In.
+    + left. right. exists n. split; [exact Hn|]. now apply mem_name_In.
+    + right. exists (m, t). split; [exact H1|]. cbn. now apply mem_key_In.
+Qed.
+
+Lemma files_collide_sym f g : files_collide f g = true -> files_collide g f = true.
+Proof.
+  rewrite !files_collide_spec. intros [H|[H|[m [t [H1 H2]]]]]; auto. right. right. exists m, t. auto.
+Qed.
+
+Lemma pairs_collide_spec u :
+  NoDup u ->
+  (pairs_collide u = true <-> exists f g, In f u /\ In g u /\ f <> g /\ files_collide f g = true).
+Proof.
+  induction u as [|a u IH]; intros Hn; cbn [pairs_collide].
+  - split; [discriminate|]. intros [f [g [[] _]]].
+  - inversion Hn; subst. rewrite orb_true_iff, existsb_exists, (IH H2). split.
+    + intros [[g [Hg Hc]]|[f [g [Hf [Hg [Hne Hc]]]]]].
+      * exists a, g. repeat split; auto; [now left|now right|]. intros ->. contradiction.
+      * exists f, g. repeat split; auto; now right.
+    + intros [f [g [[<-|Hf] [[<-|Hg] [Hne Hc]]]]].
+      * congruence.
+      * left. exists g. auto.
+      * left. exists f. split; [exact Hf|]. now apply files_collide_sym.
+      * right. exists f, g. auto.
+Qed.
+
+Lemma dedup_files_spec l :
+  (forall f g, In f l -> In g l -> ffid f = ffid g -> f = g) ->
+  forall seen,
+    (forall f, In f (dedup_files l seen) <-> In f l /\ ~ In (ffid f) seen) /\
+    NoDup (dedup_files l seen).
+Proof.
+  intros W1. induction l as [|a l IH]; intros seen; cbn [dedup_files].
+  - split; [intros f; cbn; tauto|constructor].
+  - assert (W1' : forall f g, In f l -> In g l -> ffid f = ffid g -> f = g).
+    { intros f g Hf Hg. apply W1; now right. }
+    destruct (mem_N (ffid a) seen) eqn:Em.
+    + apply mem_N_In in Em. destruct (IH W1' seen) as [I1 I2]. split; [|exact I2].
+      intros f. rewrite I1. cbn [In]. split; [tauto|]. intros [[<-|Hf] Hs]; [contradiction|auto].
+    + assert (Hns : ~ In (ffid a) seen) by (intros H; apply mem_N_In in H; congruence).
+      destruct (IH W1' (ffid a :: seen)) as [I1 I2]. split.
+      * intros f. cbn [In]. rewrite I1. cbn [In]. split.
+        -- intros [<-|[Hf Hs]]; [auto|]. split; [now right|tauto].
+        -- intros [[<-|Hf] Hs]; [now left|].
+           destruct (N.eq_dec (ffid a) (ffid f)) as [E|E].
+           ++ left. apply W1; [now left|now right|exact E].
+           ++ right. split; [exact Hf|]. intros [H|H]; auto.
+      * constructor; [|exact I2]. intros Ha. apply I1 in Ha as [_ Ha]. apply Ha. now left.
+Qed.
+
+Lemma has_collision_spec fs :
+  wf_universe (closure_list fs) -> (has_collision fs = true <-> collides (closure_list fs)).
+Proof.
+  intros [W1 W2]. unfold has_collision.
+  destruct (dedup_files_spec (closure_list fs) W1 []) as [D1 D2].
+  set (u := dedup_files (closure_list fs) []) in *.
+  assert (HE : forall x, In x u <-> In x (closure_list fs)).
+  { intros x. rewrite D1. cbn. tauto. }
+  rewrite orb_true_iff, (pairs_collide_spec u D2), existsb_exists. split.
+  - intros [[f [g [Hf [Hg [Hne Hc]]]]]|[f [Hf Hd]]].
+    + apply HE in Hf, Hg. apply files_collide_spec in Hc as [Hc|[Hc|Hc]].
+      * left. exists f, g. auto.
+      * left. exists g, f. repeat split; auto.
+      * left. exists f, g. auto.
+    + right. exists f. split; [now apply HE|now apply dup_key_spec].
+  - intros [[f [g [Hf [Hg [Hne Hc]]]]]|[f [Hf Hd]]].
+    + left. exists f, g. repeat split; [now apply HE|now apply HE|exact Hne|].
+      apply files_collide_spec. destruct Hc as [Hc|Hc]; auto.
+    + right. exists f. split; [now apply HE|now apply dup_key_spec].
+Qed.
